@@ -185,6 +185,11 @@ func main() {
 		args = append(args, "-race")
 		s.WorkerRace = true
 	}
+	if os.Getenv("VERIF_COVER") != "" {
+		// reach measurement (tools/reach.sh): statement coverage of the working tree's own packages
+		// under the simulated worlds; the workers inherit GOCOVERDIR
+		args = append(args, "-cover", "-coverpkg=github.com/gontainer/gontainer/...")
+	}
 	args = append(args, ".")
 	if _, err := run(s.Repo, GoEnv(), "go", args...); err != nil {
 		return s, fmt.Errorf("building instrumented worker: %w", err)
